@@ -350,6 +350,131 @@ def gen_problem(rng, mode=None, max_leaves=7):
     return prob
 
 
+class MultiProblem(object):
+    """one taxonomy, one query, several reference-marker files: probs[i] is
+    the SelProblem of file i (own gene list and marker table, attribute
+    leaf_n = cells per leaf in that file's statistics)"""
+
+    def __init__(self, probs, label='multi'):
+        self.probs = probs
+        self.label = label
+
+    def to_json(self):
+        return {'label': self.label,
+                'files': [dict(p.to_json(), leaf_n=p.leaf_n)
+                          for p in self.probs]}
+
+    @classmethod
+    def from_json(cls, d):
+        probs = []
+        for f in d['files']:
+            p = SelProblem.from_json(f)
+            p.leaf_n = f['leaf_n']
+            probs.append(p)
+        return cls(probs, d.get('label', 'multi'))
+
+    def census(self, parent):
+        """cells under the parent in each file's statistics"""
+        base = self.probs[0]
+        anc = base.leaf_ancestors()
+        if parent is None:
+            under = list(base.leaves)
+        else:
+            under = [l for l in base.leaves
+                     if anc[l][parent[0]] == parent[1]]
+        return [sum(p.leaf_n[l] for l in under) for p in self.probs]
+
+    def assignment(self):
+        """parent -> index of the file it is selected on: the file with the
+        most cells under the parent, the first such file on a tie
+        (independent of the repo)"""
+        out = {}
+        for parent in self.probs[0].all_parents():
+            c = self.census(parent)
+            out[parent] = c.index(max(c))
+        return out
+
+
+def gen_multi(rng, n_files=2):
+    """2-3 reference-marker files over one taxonomy whose gene lists differ
+    (a shared core, private genes per file, different order), sparse
+    pair-specific tables that lean on the private genes, cell counts that
+    send different parents to different files; the query holds most genes of
+    every file plus foreign ones"""
+    for _ in range(50):
+        tree = small_tree(rng)
+        hh = tree['hierarchy']
+        # want several parents that can go to different files
+        if rng.random() < 0.1 or any(
+                len(tree[l]) >= 2 and any(len(c) >= 2 for c in tree[l].values())
+                for l in hh[:-1]):
+            break
+    leaf_level = tree['hierarchy'][-1]
+    leaves = sorted(tree[leaf_level].keys())
+    n_pairs = len(leaves) * (len(leaves) - 1) // 2
+    n_per = rng.choice([1, 2, 2, 3])
+    core = ['s%d' % i for i in range(rng.randint(2, 5))]
+    probs = []
+    h = tree['hierarchy']
+    tops = list(tree[h[0]].keys())
+    for fi in range(n_files):
+        private = ['f%d_%d' % (fi, i) for i in range(rng.randint(4, 9))]
+        names = core + private
+        if fi == n_files - 1 and rng.random() < 0.5:
+            names = list(core) + private[:2]     # (nearly) a subset file
+        rng.shuffle(names)
+        priv_ids = [i for i, g in enumerate(names) if g not in core]
+        ids = list(range(len(names)))
+        up, down = [], []
+        for _ in range(n_pairs):
+            # mostly private genes, around 2n of them
+            k = rng.choice([0, 1, n_per, 2 * n_per, 2 * n_per + 1,
+                            2 * n_per + 2])
+            g = rng.sample(priv_ids, min(k, len(priv_ids)))
+            if rng.random() < 0.4:
+                g += rng.sample([i for i in ids if i not in g],
+                                min(1, len(ids) - len(g)))
+            rng.shuffle(g)
+            c = rng.randint(0, len(g))
+            up.append(sorted(g[:c]))
+            down.append(sorted(g[c:]))
+        probs.append((names, up, down))
+    query = []
+    for names, _, _ in probs:
+        query += [g for g in names if g not in query and rng.random() < 0.85]
+    for names, _, _ in probs:      # every file shares a gene with the query
+        if not set(names) & set(query):
+            query.append(names[0])
+    query += ['x0', 'x1']
+    rng.shuffle(query)
+    # cells: file fi dominates the top-level branches it "owns"
+    anc = SelProblem(tree, probs[0][0], probs[0][1], probs[0][2], query,
+                     n_per).leaf_ancestors()
+    # ownership alternates over the nodes of the lowest non-leaf level that
+    # has >= 2 nodes, so that different parents go to different files
+    own_level = h[0]
+    for lvl in h[:-1]:
+        if len(tree[lvl]) >= 2:
+            own_level = lvl
+    start = rng.randrange(n_files)
+    nodes = list(tree[own_level].keys())
+    rng.shuffle(nodes)
+    owner = {t: (start + i) % n_files for i, t in enumerate(nodes)}
+    out = []
+    overrides = []
+    if rng.random() < 0.4:
+        overrides.append([None, rng.choice([1, 3])])
+    for fi, (names, up, down) in enumerate(probs):
+        p = SelProblem(tree, names, up, down, query, n_per,
+                       overrides=overrides,
+                       label='multi/file%d' % fi)
+        p.dtype_mode = rng.choice(['int64', 'uint'])
+        p.leaf_n = {l: (rng.randint(20, 40) if owner[anc[l][own_level]] == fi
+                        else rng.randint(0, 6)) for l in leaves}
+        out.append(p)
+    return MultiProblem(out, label='multi/%d_files' % n_files)
+
+
 def _two_level(groups):
     """tree ['class','cluster'] whose top nodes have the given numbers of
     leaves; leaf names sort in creation order"""
@@ -544,7 +669,7 @@ def write_problem(prob, d, with_metadata=True):
     stats = pipeline.write_stats_file(
         d / 'stats.h5', prob.tree, prob.ref_genes,
         {l: np.zeros(n_g) for l in prob.leaves},
-        {l: 1 for l in prob.leaves})
+        getattr(prob, 'leaf_n', None) or {l: 1 for l in prob.leaves})
     p2i = {prob.leaf_level: {}}
     lk = p2i[prob.leaf_level]
     for i, (a, b) in enumerate(prob.pairs):
@@ -765,7 +890,9 @@ def run_ref_list(prob, ref_path, n_processors, cutoff, tmp_dir,
     try:
         with silent():
             res = create_marker_gene_lookup_from_ref_list(
-                reference_marker_path_list=[str(ref_path)],
+                reference_marker_path_list=[str(ref_path)]
+                if not isinstance(ref_path, (list, tuple))
+                else [str(r) for r in ref_path],
                 query_gene_names=shared.query,
                 n_per_utility=prob.n_per,
                 n_per_utility_override=shared.override,
